@@ -38,7 +38,19 @@ def todict(include_position=False, include_comments=False):
     return _todict[k]
 
 
-def loads(text, expand_includes=False, include_position=False, include_comments=False, fn=None):
+_INC = None
+
+
+def loads(text, expand_includes=None, include_position=False, include_comments=False, fn=None):
+    """expand_includes=None: the public default (True: the include pre-pass runs over the text) unless the text itself contains a
+    line starting with INCLUDE - then the directives are kept as data (corpus files whose include targets may not exist)"""
+    global _INC
+    if expand_includes is None:
+        if _INC is None:
+            import re
+
+            _INC = re.compile(r"(?im)^\s*include")
+        expand_includes = not _INC.search(text)
     ast = parser(expand_includes, include_comments).parse(text, fn)
     return todict(include_position, include_comments).transform(ast)
 
